@@ -35,6 +35,8 @@ theorem failed_noop (dag : Dag) (s : St) (op : Op) (h : (step dag s op).2 ≠ .o
     all_goals first
       | exact ⟨rfl, rfl, rfl, rfl⟩
       | (exfalso; revert h; simp_all)
+  | setAutosync b => simp at h
+  | flush => simp at h
 
 /-- what a successful call does to the pin model -/
 def OkSpec (s s' : St) : Op → Prop
@@ -44,6 +46,8 @@ def OkSpec (s s' : St) : Op → Prop
   | .unpin c _ _ => UnpinSpec s s' c
   | .update src dst u _ =>
     (src = dst → s'.store = s.store) ∧ (src ≠ dst → ∃ nm0, RName s src nm0 ∧ UpdateSpec s s' src dst u nm0)
+  | .setAutosync _ => s'.store = s.store
+  | .flush => (∀ w k v, s'.store.has w k v ↔ s.store.has w k v) ∧ ∀ j, s'.store.rec? j = s.store.rec? j
 
 theorem pinRecursive_ok {s0 : Store} {s : St} (h : Good s0 s) (dag : Dag) (c : Nat) (fetch : Bool)
     (name : Nat) (ctx : Ctx) (hok : (pinRecursive dag s c fetch name ctx).2 = .ok) :
@@ -79,11 +83,11 @@ theorem unpin_ok {s0 : Store} {s : St} (h : Good s0 s) (c : Nat) (recursive : Bo
     apply unpin_spec_of_views h c
     · intro w k v
       by_cases hb : (removePinsForCid s c none).2 = true
-      · rw [if_pos hb]; simp only [flushPins, setClean_has]; exact hv w k v
+      · rw [if_pos hb]; simp only [flushPins_has]; exact hv w k v
       · rw [if_neg hb]; exact hv w k v
     · intro j
       by_cases hb : (removePinsForCid s c none).2 = true
-      · rw [if_pos hb]; simp only [flushPins, setClean_rec]; exact hr j
+      · rw [if_pos hb]; simp only [flushPins_rec]; exact hr j
       · rw [if_neg hb]; exact hr j
   unfold unpin at hok ⊢
   by_cases h1 : ctx = .pre
@@ -233,6 +237,10 @@ theorem step_ok (dag : Dag) {s : St} (h : Inv s) (op : Op) (hok : (step dag s op
     refine ⟨a, fun hne => ?_⟩
     obtain ⟨nm0, x, y⟩ := b hne
     exact ⟨nm0, (rname_congr (a := { s with log := [], present := s.present }) (b := s) rfl src nm0).1 x, y.transfer rfl⟩
+  | setAutosync b => simp [step, OkSpec]
+  | flush =>
+    simp only [step, OkSpec]
+    exact ⟨fun w k v => by simp, fun j => by simp⟩
 
 /-- one pin per (cid, mode) is preserved by every call -/
 theorem step_uniq (dag : Dag) {s : St} (h : Inv s) (hu : Uniq s) (op : Op) : Uniq (step dag s op).1 := by
@@ -256,6 +264,11 @@ theorem step_uniq (dag : Dag) {s : St} (h : Inv s) (hu : Uniq s) (op : Op) : Uni
       · exact (uniq_congr (this.1 hsd)).2 hu
       · obtain ⟨nm0, _, y⟩ := this.2 hsd
         exact y.uniq hu
+    | setAutosync b => exact (uniq_congr this).2 hu
+    | flush =>
+      intro c id1 id2
+      simp only [this.1]
+      exact hu c id1 id2
   · exact (uniq_congr (failed_noop dag s op hok).1).2 hu
 
 end C22
